@@ -59,6 +59,11 @@ def ladder_d(inst):
 
 def bases(tier, inst):
     yield from bases_main(tier, inst)
+    # problems of realistic size (6-18 streams) under the generators that do not multiply with the size
+    for ms in P.crowds(inst, 3, dts=(1,)):
+        for ui in (0, 1, 4):
+            yield {"streams": ms, "zones": ["A"] * len(ms), "uset": ui, "inst": list(inst)}
+        yield {"streams": ms, "zones": [["A", "B"][i % 2] for i in range(len(ms))], "uset": 1, "inst": list(inst)}
     for ms in P.stream_multisets(inst, 3, 2 if tier == "quick" else 3, cps=(1, 2), dts=(1,), iso=(tier == "thorough")):
         yield {"streams": ms, "zones": ["A"] * len(ms), "uset": 4, "inst": list(inst)}
     # zero-crossing lattice (contains 0.0 and a negative temperature) with the two extra ladders
@@ -105,7 +110,8 @@ def twins(case, prob):
     T = A.lattice(inst, 3)
     light = case["uset"] in (2, 3)      # the zero-crossing family: translations, scalings, mirror, utility order and zone renaming only
     # permutations
-    for perm in itertools.permutations(range(n)):
+    perms = itertools.permutations(range(n)) if n <= 3 else [tuple(reversed(range(n))), tuple(range(1, n)) + (0,), tuple(range(0, n, 2)) + tuple(range(1, n, 2))]
+    for perm in perms:
         if list(perm) == list(range(n)) or light:
             continue
         tw = copy.deepcopy(prob)
@@ -117,8 +123,8 @@ def twins(case, prob):
         yield "utility-order", tw, {}
     # series split at interior lattice points
     for i, s in enumerate(prob["streams"]):
-        if light:
-            break
+        if light or (n > 3 and i not in (0, n // 2, n - 1)):
+            continue
         lo, hi = sorted((s["t_supply"], s["t_target"]))
         for tm in T:
             if lo < tm < hi:
@@ -131,6 +137,8 @@ def twins(case, prob):
                 yield "series-split", tw, {}
     # parallel split
     for i, s in enumerate(prob["streams"]):
+        if n > 3 and i not in (0, n // 2, n - 1):
+            continue
         if light:
             break
         tw = copy.deepcopy(prob)
@@ -317,7 +325,7 @@ SUBCHECKS = {
         describe="pinch_analysis_service on every base problem and on every twin the transformation group generates; pairwise relation on every record and on graph data",
         rule="case = base problem; transitions = 1 + number of twins; non-trivial = >=3 twins that are not literally identical to the base; outcomes = distinct base results",
         cases=bases, run=run,
-        bound=lambda t: "multisets <=2 (18 types) + 3-multisets (6 types), <=2 zones, {no utilities, 4-level ladder}, all generators; zero-crossing lattice with two further ladders under translations / scalings / mirror / renaming; a 7-level ladder with gliding, nested and inside-range levels under all generators" if t == "quick"
+        bound=lambda t: "multisets <=2 (18 types) + 3-multisets (6 types), <=2 zones, {no utilities, 4-level ladder}, all generators; zero-crossing lattice with two further ladders under translations / scalings / mirror / renaming; a 7-level ladder with gliding, nested and inside-range levels under all generators; 7 problems of 6-18 streams x 4 utility / zone settings" if t == "quick"
         else "multisets <=2 (36 types) + 3-multisets (18 types), <=2 zones, {none, ladder}, all generators",
     ),
 }
